@@ -109,6 +109,8 @@ def run(cx):
     r6(cx)
     cx.rule("C01.R7", "K1", "a parent whose children are all terminal is closed by its review: the completing write of Step / Act / Branch / Workflow::review depends on nothing but the task running and the all-children-terminal fact (a review that withholds the completion for some other reason leaves the task running with nothing left to wake it)")
     r7_review_closes(cx)
+    cx.rule("C01.R9", "K1", "a completion scan covers every way a child can have ended: for each terminal state of the child, an iteration either counts it or leaves the function (error / skip are passed on) - a terminal state that is neither counted nor passed on (Act::review counted `is_success` only: a submitted or removed act in a generated group) leaves the composite running with nothing left to wake it")
+    r9_scan_covers(cx)
     cx.rule("C01.R8", "K1", "wait / wake agreement: a composite waits (before it completes itself) only for tasks that report back to it when they end - a lifecycle-hook act does not review its parent, so no completion test may wait for one; a quantified test over the tasks of the process waits only for tasks directly beneath the task")
     r8_wait_wake(cx)
 
@@ -489,3 +491,94 @@ def r8_wait_wake(cx):
     if any("Workflow" in x for x in waits_quantified):
         c03.back_target_closed(cx, "C01.R8")
     cx.floor("C01.R8", 8)
+
+
+def r9_scan_covers(cx):
+    m = cx.m
+    pa = Prov(m, "alias")
+    _, tables = engine(cx)
+    from vlib.model import ITER_NEXT
+    n = 0
+    for q, f in sorted(m.fns.items()):
+        if not re.search(r"ActTask for acts::model::(step::Step|act::Act)>::(next|review)$", q):
+            continue
+        # the counter compared with children().len() at a completing write
+        cnts = set()
+        for c in f.calls():
+            if c.q != T.Q_SET_STATE:
+                continue
+            v = pa.root(f, c.args[1])
+            if not (v[0] == "agg" and v[2] == "Completed"):
+                continue
+            for g in guards_of(m, f, c.b, mode="alias"):
+                r = g.root
+                if r[0] == "bin" and r[1] == "Eq" and g.truth is True:
+                    for a, b in ((r[2], r[3]), (r[3], r[2])):
+                        if a[0] == "local" and b[0] == "call" and b[1].endswith("::len"):
+                            cnts.add(a[1])
+        for cnt in sorted(cnts):
+            incs = set()
+            for bi, si, kind, payload in f.defs().get(cnt, []):
+                if kind == "assign" and payload[0] == "use" and payload[1][0] != "k":
+                    incs.add(bi)
+                elif kind == "assign" and payload[0] in ("bin", "checked"):
+                    incs.add(bi)
+            # the loop element: receiver of Task::state in the guards of an increment
+            elem = None
+            for bi in incs:
+                for g in guards_of(m, f, bi, mode="alias"):
+                    r = g.root
+                    if r[0] == "call" and T.STATE_PRED.match(r[1]):
+                        sr = pa.root(f, Call(f, r[2]).args[0])
+                        if sr[0] == "call" and sr[1] == T.Q_STATE:
+                            e = pa.root(f, Call(f, sr[2]).args[0])
+                            if e[0] == "call" and ITER_NEXT.search(e[1]):
+                                elem = e
+            if elem is None or not incs:
+                cx.undecide("C01.R9", "`%s`: the counting loop's element / increments were not recognised" % f.short)
+                continue
+            n += 1
+            start = elem[2]
+            rets = set(f.ret_blocks())
+            uncovered = []
+            for v in sorted(T.TERMINAL):
+                seen = set()
+                work = list(f.succ(start))
+                bad = False
+                while work and not bad:
+                    x = work.pop()
+                    if x in seen:
+                        continue
+                    seen.add(x)
+                    if x in incs or x in rets:
+                        continue
+                    if x == start:
+                        bad = True
+                        break
+                    t = f.blocks[x]["t"]
+                    if t[0] in ("resume", "abort", "unreachable"):
+                        continue
+                    if t[0] == "switch":
+                        r = pa.root(f, t[1])
+                        neg = False
+                        while r[0] == "not":
+                            neg = not neg
+                            r = r[1]
+                        if r[0] == "call" and T.STATE_PRED.match(r[1]) and not r[3]:
+                            sr = pa.root(f, Call(f, r[2]).args[0])
+                            if sr[0] == "call" and sr[1] == T.Q_STATE and pa.root(f, Call(f, sr[2]).args[0]) == elem:
+                                val = tables[T.STATE_PRED.match(r[1]).group(1)][v]
+                                val = (not val) if neg else val
+                                tgt = t[3]
+                                for sv, tb in t[2]:
+                                    if int(sv) == (1 if val else 0):
+                                        tgt = tb
+                                work.append(tgt)
+                                continue
+                    work += [sx for sx in f.succ(x)]
+                if bad:
+                    uncovered.append(v)
+            cx.ob("C01.R9", "scan-covers:%s" % f.short, not uncovered,
+                  "`%s`: every terminal state of a child is counted or passed on by the scan (neither for: %s)" % (f.short, uncovered or "none"), f.loc(),
+                  **({} if not uncovered else {"consequence": "a child that ended this way is never counted: count == children().len() cannot become true and nothing else wakes the task"}))
+    cx.floor("C01.R9", 4)
